@@ -38,7 +38,7 @@ pub fn can_be_used(lhs: &Type, rhs: &Type) -> bool {
 pub fn exec(iter: Variable, function: Variable) -> ExecResult {
     let result_type = function.as_type().return_type().unwrap();
     #[cfg(feature = "verif")]
-    let _helper = crate::verif::helper_scope();
+    let _helper = crate::verif::helper_scope("map");
     let result = MAP
         .exec_with_args(&[iter, function])?
         .into_function()
